@@ -2,6 +2,7 @@
 from contracts import c05_fva as C5
 from contracts import c06_deletion as C6
 from pyvc.contract import chain_hooks
+from contracts import c05_fva_driver as CD
 from props._generic import run_property, replay_with_driver
 
 LEVEL = "other"
@@ -9,7 +10,9 @@ KEYS = ["_fva_step", "_reaction_deletion", "_gene_deletion", "_get_growth"]
 
 
 def run(rep):
-    run_property(rep, KEYS, hooks=chain_hooks(C5.HOOKS, C6.HOOKS_G, C6.HOOKS_GG), explanation=(
+    run_property(rep, KEYS, hooks=chain_hooks(C5.HOOKS, C6.HOOKS_G, C6.HOOKS_GG),
+                 more=[(["deletion._init_worker", "_reaction_deletion_worker", "_gene_deletion_worker"], C6.HOOKS_W),
+                       (["_init_worker"], CD.HOOKS)], explanation=(
         "Contracts cannot speak about schedules; they remove the need to: what is proved is that each task is a function of (worker "
         "state at task entry, item) and hands the worker back in the state it found it. _fva_step: the LP is solved with exactly the "
         "requested reaction's +forward -reverse added, the returned pair is (requested id, solver value), and every objective "
@@ -17,7 +20,10 @@ def run(rep):
         "and all other bounds as at entry, the function's own context is closed again (its undo history replayed); _gene_deletion "
         "likewise with the gene-level effect of C07; _get_growth never "
         "reports a value for a non-optimal solve (NaN), so no stale solver value can leak from a previous task (the defect found here "
-        "by the bounded tier, repaired in /repo). By induction over a worker's task sequence every task then sees the initial state; "
+        "by the bounded tier, repaired in /repo). The tasks AS THE POOL RUNS THEM are under contract too: the initialisers store the "
+        "worker's private model in the module global (and, for FVA, set the sweep's direction), and _reaction_deletion_worker / "
+        "_gene_deletion_worker call the proved function on that model with exactly the task's ids and return its result unchanged. "
+        "By induction over a worker's task sequence every task then sees the initial state; "
         "results are keyed by id. The Pool itself, OS scheduling, chunking and completion order are outside any sequential contract "
         "language: bounded driver (processes 1-8, permutations, chunk sizes, seeded per-task delays injected into the workers, "
         "single-item calls, exact oracle; reproducibility of parallel sampling)."),
